@@ -126,6 +126,17 @@ pub fn step(log: &mut Log, seed: u64, tier: &str, set: bool) {
         let maxlen = *pick(&mut r, &[2usize, 4, 7]);
         shapes.push(random_keys(&mut r, n, alpha, maxlen));
     }
+    // replacement order: two-byte keys whose second byte comes from a small alphabet in random order -
+    // every key freezes the one-transition node of the key before it, so the cache sees a random
+    // sequence of lookups over a handful of nodes (hits deep in a row, then evictions, then the
+    // evicted or the survivor again), under one-row caches of 1, 2, 3 and 5 columns
+    for j in 0..(if thorough { 160 } else { 48 }) {
+        let nk = r.gen_range(8, 60);
+        let alpha = *pick(&mut r, &[3usize, 4, 6, 8]);
+        let items: Vec<Kv> = (0..nk).map(|i| (vec![0x21 + i as u8, b'a' + r.gen_range(0, alpha) as u8], 0)).collect();
+        let geo = [Some((1, 1)), Some((1, 2)), Some((1, 3)), Some((1, 5))][j % 4];
+        stepped_build(log, &items, set, geo);
+    }
     for (j, keys) in shapes.into_iter().enumerate() {
         if !thorough && j % 3 != 0 && keys.len() > 40 {
             continue;
